@@ -391,6 +391,23 @@ func (fv *FuncVC) loopEnv(li *loopInfo, st *State, phiVal func(*ssa.Phi) Term) *
 }
 
 func (fv *FuncVC) bindLoopAliases(env *Env, li *loopInfo, phiVal func(*ssa.Phi) Term) {
+	if li.spec.Iter != "" {
+		var rng *ssa.Range
+		for b := range li.body {
+			for _, ins := range b.Instrs {
+				if nx, ok := ins.(*ssa.Next); ok {
+					if r, ok := nx.Iter.(*ssa.Range); ok {
+						rng = r
+					}
+				}
+			}
+		}
+		if rng == nil {
+			specFail("%s: loop %d is not a map range loop", fv.name, li.ord)
+		}
+		// the iterator is typed as its map so that seen(it, k) finds the key type
+		env.vars[li.spec.Iter] = TV{fv.val(rng), rng.X.Type()}
+	}
 	var carried []*ssa.Phi
 	var keyPhi *ssa.Phi
 	for _, ins := range li.head.Instrs {
@@ -473,10 +490,16 @@ func (fv *FuncVC) processBlock(b *ssa.BasicBlock) {
 				env := fv.loopEnv(li, states[i], func(phi *ssa.Phi) Term { return fv.val(phiEdgeValue(phi, b, p)) })
 				if li.spec != nil {
 					fv.oblBlk = b.Index
+					g := guards[i]
 					for k, inv := range li.spec.Invariants {
 						goal := env.withPol(1).trBool(inv.E)
-						fv.obligeAt(guards[i], "loop/init", fmt.Sprintf("loop%d/init:inv%d", li.ord, k), clauseProps(inv, fv.props()), goal, token.NoPos,
+						fv.obligeAt(g, "loop/init", fmt.Sprintf("loop%d/init:inv%d", li.ord, k), clauseProps(inv, fv.props()), goal, token.NoPos,
 							fmt.Sprintf("invariant %s holds on loop entry", exprString(inv.E)), inv.Bounded)
+						if goal != "true" {
+							ng := fv.newGuard("i")
+							fv.addBg("(assert "+implies(ng, and(g, env.trBool(inv.E)))+")", b.Index)
+							g = ng
+						}
 					}
 					fv.oblBlk = -1
 				}
@@ -536,6 +559,11 @@ func (fv *FuncVC) processBlock(b *ssa.BasicBlock) {
 				goal := env.withPol(1).trBool(inv.E)
 				fv.obligeAt(g, "loop/preserve", fmt.Sprintf("loop%d/preserve:inv%d", li.ord, k), clauseProps(inv, fv.props()), goal, token.NoPos,
 					fmt.Sprintf("invariant %s is preserved", exprString(inv.E)), inv.Bounded)
+				if goal != "true" {
+					ng := fv.newGuard("v")
+					fv.addBg("(assert "+implies(ng, and(g, env.trBool(inv.E)))+")", b.Index)
+					g = ng
+				}
 			}
 			fv.oblBlk = -1
 		}
@@ -617,7 +645,7 @@ func (fv *FuncVC) instr(ins ssa.Instruction) {
 		case *types.Slice:
 			s := fv.val(x.X)
 			fv.oblige("bounds", "bounds", panicProps, and(app("<=", "0", idx), app("<", idx, app("s_len", s))), x.Pos(), fmt.Sprintf("index %s in range of %s", x.Index.Name(), x.X.Name()))
-			fv.addrs[x] = &Addr{elem: true, heap: e.elemHeap(u.Elem()), id: app("s_arr", s), idx: app("idx", s, idx), baseT: u.Elem(), ty: u.Elem()}
+			fv.addrs[x] = &Addr{elem: true, heap: e.elemHeap(u.Elem()), id: app("s_arr", s), idx: app("idx", app("s_off", s), idx), baseT: u.Elem(), ty: u.Elem()}
 		case *types.Pointer:
 			arr := u.Elem().Underlying().(*types.Array)
 			fv.oblige("bounds", "bounds", panicProps, and(app("<=", "0", idx), app("<", idx, intLit(arr.Len()))), x.Pos(), fmt.Sprintf("index %s in range of array", x.Index.Name()))
@@ -922,7 +950,7 @@ func (fv *FuncVC) convert(x *ssa.Convert) Term {
 	case isString(to) && isByteSlice(from):
 		e.declBytesStr()
 		h := fv.st.get(e.elemHeap(from.Underlying().(*types.Slice).Elem()))
-		return app("bytes_str", app("select", h, app("s_arr", v)), app("idx", v, "0"), app("s_len", v))
+		return app("bytes_str", app("select", h, app("s_arr", v)), app("idx", app("s_off", v), "0"), app("s_len", v))
 	case isString(to) || isString(from):
 		name := "conv_" + e.mangle(from) + "_" + e.mangle(to)
 		e.decl("fn:"+name, fmt.Sprintf("(declare-fun %s (%s) %s)", name, e.sortOf(from), e.sortOf(to)))
@@ -1205,8 +1233,16 @@ func (fv *FuncVC) doReturn(x *ssa.Return) {
 	for i, alias := range fv.c.Results {
 		env.vars[alias] = TV{fv.val(x.Results[i]), x.Results[i].Type()}
 	}
+	// the postcondition is the conjunction of the ensures clauses: each one is proved
+	// assuming the ones before it
+	guard := fv.cur
 	for k, en := range fv.c.Ensures {
 		goal := env.withPol(1).trBool(en.E)
-		fv.obligeAt(fv.cur, "post", fmt.Sprintf("post:%d", k), clauseProps(en, fv.props()), goal, x.Pos(), "ensures "+exprString(en.E), en.Bounded)
+		fv.obligeAt(guard, "post", fmt.Sprintf("post:%d", k), clauseProps(en, fv.props()), goal, x.Pos(), "ensures "+exprString(en.E), en.Bounded)
+		if goal != "true" && en.Bounded == "" {
+			g := fv.newGuard("p")
+			fv.addBg("(assert "+implies(g, and(guard, env.trBool(en.E)))+")", fv.curIdx())
+			guard = g
+		}
 	}
 }
